@@ -8,7 +8,9 @@ RULE = ("dbhist: histories with frequent flushes, compact_range calls and reopen
         "invariant lsm_wf_b (levels >= 1 sorted and disjoint, bounds exactly first/last entry, smallest "
         "<= largest, file numbers unique, recency order) and the SSTables / NumFilesAtLevel descriptors "
         "are cross-checked against the dump. vfn: VersionBuilder::apply_changes on random versions and "
-        "edits. seek: a key in tables at two levels and more than 100 freshly positioned iterators, so "
+        "edits; the size score of Version::finalize on versions whose levels sit next to their budgets; "
+        "iterator read sampling (record_read_sample / update_stats) with 99..230 samples on keys held by "
+        "two files. seek: a key in tables at two levels and more than 100 freshly positioned iterators, so "
         "that a seek-triggered compaction is picked from iterator read samples. proto: every manifest record the code writes (snapshot records with the bounds of every "
         "file included) must equal, field by field, the record the protocol model derives. "
         "Non-trivial: at least one write; distinct by sha1.")
@@ -48,7 +50,7 @@ def gen_seek(tier, rng):
 
 def suites(tier, seed, rng):
     return [dbh.DbSuite(dbh.corpus("C10") + dbh.corpus("C01") + gen_cases(tier, rng) + gen_seek(tier, rng)),
-            vfn.VfnSuite("vfn", vfn.gen(tier, rng, {"apply"}), lambda i, s, c: True),
+            vfn.VfnSuite("vfn", vfn.gen(tier, rng, {"apply", "score", "samples"}), lambda i, s, c: True),
             codec.CodecSuite("codec", codec.gen(tier, rng, ("V",)), lambda i, s, c: True),
             proto.ProtoSuite([proto.gen_history(rng, i, rng.choice([12, 25, 40])) for i in range(16 if tier == "quick" else 800)])]
 
